@@ -120,8 +120,15 @@ def run(ctx):
                     ns["visit_" + raw] = (lambda kk: (lambda self, node: (called.append(("DECOY:" + kk, node)), "decoy")[1]))(raw)
         # how the handlers reach the visitor: declared on a direct subclass, inherited from a parent visitor class,
         # split over two levels, or attached to the class after the class statement (all are "a visitor's method")
-        shape = rng.randrange(6)
-        if shape == 4:
+        shape = rng.randrange(7)
+        if shape == 6:
+            # a PARENT visitor class that has already been instantiated; the visitor used below is of a subclass that adds
+            # handlers of its own
+            items = sorted(ns.items())
+            Base = type("Base", (P.NodeVisitor,), dict(items[::2]))
+            Base()
+            V = type("V", (Base,), dict(items[1::2]))
+        elif shape == 4:
             # the class has ALREADY been instantiated (with fewer handlers) when the rest of its handlers are attached; the
             # visitor used below is created afterwards and has all of them
             items = sorted(ns.items())
